@@ -157,11 +157,11 @@ def const_case(draw):
     c["sys"] = draw(sys_st)
     c["kf"] = draw(st.integers(1, 9999))
     c["kr"] = draw(st.integers(0, 9999))
-    c["kform"] = draw(st.sampled_from(["bare", "str", "uv", "dict"]))
+    c["kform"] = draw(st.sampled_from(["bare", "str", "uv", "dict", "dict-uv"]))
     c["ksys"] = draw(sys_st)
     c["wrong_dim"] = draw(st.fixed_dictionaries({k: st.integers(-3, 3) for k in si.KINDS}))
     c["wrong_side"] = draw(st.sampled_from(["kf", "kr"]))
-    c["wrong_form"] = draw(st.sampled_from(["str", "uv", "dict"]))
+    c["wrong_form"] = draw(st.sampled_from(["str", "uv", "dict", "dict-uv"]))
     c["setter"] = draw(st.sampled_from(["ctor", "attr", "set_k"]))
     return c
 
@@ -178,6 +178,8 @@ def mk_const(val, form, sysd, dim, envs=("a", "default")):
         return ("%r %s" % (float(val), ustr)).strip()
     if form == "uv":
         return S.UnitValue(float(val), ustr)
+    if form == "dict-uv":
+        return {envs[0]: S.UnitValue(float(val), ustr), envs[1]: val}
     return {envs[0]: ("%r %s" % (float(val), ustr)).strip(), envs[1]: val}
 
 
@@ -214,7 +216,7 @@ def check_const(ctx, c):
         for key, q in items:
             if si.dimdict(q.units.dim) != dim:
                 raise Violation("%s (order %d) stored with dimension %s, expected %s" % (nm, n, si.dimdict(q.units.dim), dim), key="const:dim")
-            if c["kform"] == "bare" or (c["kform"] == "dict" and key == "default"):
+            if c["kform"] == "bare" or (c["kform"] in ("dict", "dict-uv") and key == "default"):
                 owner = c["sys"]
             else:
                 owner = c["ksys"]
@@ -222,14 +224,14 @@ def check_const(ctx, c):
             if abs(si.si_value(q) - want) > F(1, 10 ** 12) * abs(want):
                 raise Violation("%s = %r given as %s in %s: SI value %r, expected %r" % (
                     nm, val, c["kform"], owner, float(si.si_value(q)), float(want)), key="const:value")
-        if c["kform"] == "dict" and set(got) != {"a", "default"}:
+        if c["kform"] in ("dict", "dict-uv") and set(got) != {"a", "default"}:
             raise Violation("per-environment %s has keys %s" % (nm, sorted(got)), key="const:keys")
     # a constant of any other dimension is refused
     wd = c["wrong_dim"]
     side_dim = dimf if c["wrong_side"] == "kf" else dimb
     if wd != side_dim:
         bad = mk_const(3, c["wrong_form"], c["ksys"], wd)
-        if c["wrong_form"] == "dict":
+        if c["wrong_form"] in ("dict", "dict-uv"):
             bad = {"a": bad["a"]}
         r3 = sut_call("Reaction()", build_reaction, c, units_system=U)
         before = si_of_const(getattr(r3, c["wrong_side"]))
@@ -249,11 +251,14 @@ def split_case(draw):
     c["sys"] = draw(gen.us_mild)
     envs = ["a", "b", "default"]
 
+    # magnitudes: mostly small integers, sometimes very small or very large numbers (a constant is zero only if it IS zero)
+    num = st.one_of(st.integers(0, 999), st.integers(0, 999), st.sampled_from([1e-9, 2.5e-12, 1e-8, 7e-15, 1e-30, 3e12, 4e-6]))
+
     def val():
         keys = draw(st.lists(st.sampled_from(envs), max_size=3, unique=True))
         if not keys or draw(st.booleans()):
-            return draw(st.integers(0, 999))
-        return {k: draw(st.integers(0, 999)) for k in keys}
+            return draw(num)
+        return {k: draw(num) for k in keys}
     c["kf"] = val()
     c["kr"] = val()
     c["label"] = draw(st.sampled_from([None, "r1"]))
@@ -336,7 +341,7 @@ def split_and_K(c, r, nf, nb):
             raise Violation("K[%r] is None although kr = %r" % (env, kr_), key="K:missing")
         if si.dimdict(got.units.dim) != dimK:
             raise Violation("K has dimension %s, expected %s" % (si.dimdict(got.units.dim), dimK), key="K:dim")
-        want = F(kf_, kr_) * si.scale(c["sys"], dimK)
+        want = F(kf_) / F(kr_) * si.scale(c["sys"], dimK)
         if abs(si.si_value(got) - want) > F(1, 10 ** 9) * abs(want):
             raise Violation("K[%r] = %r (SI), kf/kr = %r" % (env, float(si.si_value(got)), float(want)), key="K:value")
 
